@@ -72,6 +72,14 @@ func deepCopy(v Value, memo map[interface{}]Value) Value {
 	return v
 }
 
+// ioYield is a scheduling point at an I/O stub (database call, message
+// encode, socket write) when the harness asked for it (Config "sched.ioYield").
+func (m *Machine) ioYield() {
+	if m.sched() != nil && m.cfg("sched.ioYield") {
+		m.yield(nil, "")
+	}
+}
+
 func (m *Machine) cfg(key string) bool {
 	b, _ := m.env["cfg:"+key].(bool)
 	return b
@@ -105,6 +113,8 @@ type diamMsg struct {
 	body    Value
 	bodyT   types.Type
 	session string
+	reqOf   *diamMsg // answers: the request this message answers
+	answer  *diamMsg // requests: the answer written for it
 }
 
 type diamConn struct {
@@ -321,6 +331,7 @@ func init() {
 		m.noteAssumption("stub diam.Message.Marshal/Unmarshal: the message carries a deep copy of the Go struct (field fidelity of the real AVP codec is the subject of C17, assumed here)")
 		msg := opaqueOf(args[0]).Data.(*diamMsg)
 		src := args[1].(Iface)
+		m.ioYield()
 		if m.cfg("diam.marshalMayFail") && m.Choose(2) == 1 {
 			return m.newError("marshal failed")
 		}
@@ -348,13 +359,14 @@ func init() {
 	}
 	I["(*"+diamPkg+".Message).Answer"] = func(m *Machine, fr *frame, args []Value) Value {
 		msg := opaqueOf(args[0]).Data.(*diamMsg)
-		return m.newOpaquePtr("diam.Message", &diamMsg{cmd: msg.cmd, request: false})
+		return m.newOpaquePtr("diam.Message", &diamMsg{cmd: msg.cmd, request: false, reqOf: msg})
 	}
 	I["(*"+diamPkg+".Message).String"] = func(m *Machine, fr *frame, args []Value) Value { return "<diam.Message>" }
 	I["(*"+diamPkg+".Message).WriteTo"] = func(m *Machine, fr *frame, args []Value) Value {
 		m.noteAssumption("stub diam.Message.WriteTo: hands the message to the peer's real handler closure synchronously; answers are queued FIFO on the subscriber channel")
 		msg := opaqueOf(args[0]).Data.(*diamMsg)
 		connI := args[1].(Iface)
+		m.ioYield()
 		if m.cfg("diam.writeMayFail") && m.Choose(2) == 1 {
 			return Tuple{m.i64(0), m.newError("write failed")}
 		}
@@ -391,6 +403,9 @@ func init() {
 		name := map[uint64]string{272: "CCA", 111: "SUA"}[msg.cmd]
 		m.env["answersWritten"] = asInt(m.env["answersWritten"]) + 1
 		m.env["lastAnswer"] = msg
+		if msg.reqOf != nil {
+			msg.reqOf.answer = msg
+		}
 		if m.cfg("diam.answerMayBeLost") && m.Choose(2) == 1 {
 			m.events = append(m.events, "answer lost")
 			return Tuple{m.i64(1), Iface{}}
@@ -420,6 +435,7 @@ func init() {
 	I[mongo+"RestfulAPIGetOne"] = func(m *Machine, fr *frame, args []Value) Value {
 		m.noteAssumption("stub mongoapi.RestfulAPIGetOne/PutOne: an in-memory table of (ueId, ratingGroup) rows set up by the harness")
 		filter := args[1].(*Map)
+		m.ioYield()
 		r := m.dbFind(fr, filter)
 		if r == nil {
 			return Tuple{(*Map)(nil), Iface{}}
